@@ -5,7 +5,7 @@ from .. import build, pbt, tool, findings
 
 RULE = ("Hypothesis-generated assignments: for a drawn (backend, key), each of the three sources (config.toml in kebab- or snake-case, --config, "
         "#[diplomat::config] on a top-level struct / mod / impl) independently sets the shared key, the key scoped to this backend, and/or the key scoped to "
-        "another backend, each to a distinct value. Oracle: a reference precedence model picks the effective value; the output directory must be byte-identical "
+        "another backend, each to a distinct value; one run in four names the target by its other accepted command-line spelling (py-nanobind, cpp2, kotlin2, ...). Oracle: a reference precedence model picks the effective value; the output directory must be byte-identical "
         "to the canonical run that passes only that value with --config, and for lib_name / kotlin.domain the value is additionally observed directly "
         "(Kotlin package path and Native.load(\"...\"), nanobind <lib>_ext.cpp). A case = one assignment. Non-trivial: >= 2 sources set a relevant key with different values. "
         "Distinct = distinct (backend, key, assignment).")
@@ -89,7 +89,11 @@ def cases(draw):
     other_lang = draw(st.sampled_from(others))
     style = {"kebab": draw(st.booleans()), "attr_on": draw(st.sampled_from(["struct", "mod", "impl"])), "attr_quoted": draw(st.booleans()),
              "one_attr": draw(st.booleans())}
-    return {"backend": backend, "key": key, "bare": bare, "assign": assign, "other_lang": other_lang, "style": style}
+    # the command line also accepts the spellings `py-nanobind` and a trailing `2` (`cpp2`, `kotlin2`): same backend, same keys
+    target = backend
+    if draw(st.integers(0, 3)) == 0:
+        target = "py-nanobind" if backend == "nanobind" else (backend + "2" if backend in ("c", "cpp", "kotlin", "js") else backend)
+    return {"backend": backend, "target": target, "key": key, "bare": bare, "assign": assign, "other_lang": other_lang, "style": style}
 
 
 def full_key(case, form):
@@ -208,11 +212,11 @@ def check(art, work, case):
         case["assign"] = case["assign"] + [{"source": "toml", "form": "scoped" if not KEYS[key]["scoped"] else "shared", "value": req[key]}]
         eff = effective(case)
     entry, cfg_file, cli, src, toml_text = render_inputs(case, work)
-    r1 = tool.run_backend(art, backend, entry, os.path.join(work, "o1"), config=cli, config_file=cfg_file)
+    r1 = tool.run_backend(art, case.get("target", backend), entry, os.path.join(work, "o1"), config=cli, config_file=cfg_file)
     centry, ccli = canonical(case, work, eff)
     r2 = tool.run_backend(art, backend, centry, os.path.join(work, "o2"), config=ccli, config_file=os.path.join(work, "none.toml"))
-    desc = "backend %s key %s\nconfig.toml:\n%s\n--config %s\nlib.rs head:\n%s\nexpected effective value (toml < cli < attribute; scoped over shared): %r" % (
-        backend, key, toml_text, cli, src.split("#[diplomat::bridge]")[0], eff)
+    desc = "backend %s (invoked as `%s`) key %s\nconfig.toml:\n%s\n--config %s\nlib.rs head:\n%s\nexpected effective value (toml < cli < attribute; scoped over shared): %r" % (
+        backend, case.get("target", backend), key, toml_text, cli, src.split("#[diplomat::bridge]")[0], eff)
     if r2.classify() == "panic" and "Missing required field" not in r2.stderr:
         return eff, "canonical run crashed: %s\n%s" % (r2.stderr[-300:], desc)
     if r1.classify() != r2.classify():
@@ -251,6 +255,8 @@ def worker(widx, seed, params):
         vals = {json.dumps(a["value"]) for a in rel}
         nt = len(srcs) >= 2 and len(vals) >= 2
         labels = ["key:" + case["key"], "backend:" + case["backend"], "sources:%d" % len(srcs)]
+        if case.get("target", case["backend"]) != case["backend"]:
+            labels.append("target-alias")
         if any(a["form"] == "scoped" for a in rel) and any(a["form"] == "shared" for a in rel):
             labels.append("scoped-and-shared")
         if any(a["form"] == "other" for a in case["assign"]):
